@@ -4,7 +4,7 @@ SPEC = dict(
     bin="c06",
     allow_axioms=[],
     mismatch_is_failing_input=True,
-    level_text="Proof + metamorphic + differential: twelve theorems prove, for every row list and every predicate function with TRUE/FALSE/NULL values, that the rows are the disjoint union of the p / NOT p / p IS NULL parts and that COUNT, SUM, MIN, MAX, DISTINCT, GROUP BY multiplicities and the count-of-TRUEs form combine accordingly, plus conjunct pushdown soundness and agreement of the two truthiness conventions on boolean-or-NULL values. The executor is tied in two ways on every run: the partition relation is evaluated directly on its answers to the four derived queries in seven forms (plain, DISTINCT, COUNT, SUM/MIN/MAX, GROUP BY, HAVING, count-of-TRUE), and every derived query is also compared with the reference semantics evaluated in Coq.",
+    level_text="Proof + metamorphic + differential: thirteen theorems prove, for every row list and every predicate function with TRUE/FALSE/NULL values, that the rows are the disjoint union of the p / NOT p / p IS NULL parts and that COUNT, SUM, MIN, MAX, DISTINCT, GROUP BY multiplicities and the count-of-TRUEs form combine accordingly, that the reference evaluator's own WHERE filter (filterM over eval_expr) for w / NOT w / w IS NULL succeeds and yields exactly those three parts whenever w evaluates to TRUE/FALSE/NULL on every row (any fuel, any environment), plus conjunct pushdown soundness and agreement of the two truthiness conventions on boolean-or-NULL values. The executor is tied in two ways on every run: the partition relation is evaluated directly on its answers to the four derived queries in seven forms (plain, DISTINCT, COUNT, SUM/MIN/MAX, GROUP BY, HAVING, count-of-TRUE), and every derived query is also compared with the reference semantics evaluated in Coq.",
     level_note="The theorems are about the reference combinators (Sem); the executor's three predicate evaluators (columnar filter, generic evaluator, pushdown path) are reached by the generated shapes but agreement is sampled (about 9000 queries per quick run). Trusted: Coq kernel, Sem as reference, the generator/printers (qgen.rs).",
     explanation="Per case: database, base query Q (1-2 FROM items incl. joins, optional WHERE), predicate p (comparisons, AND/OR/NOT nests, IS NULL, BETWEEN, IN lists with NULL, CASE, subqueries); derived queries Q, Q AND p, Q AND NOT p, Q AND (p IS NULL) in one of seven forms.",
     assumptions=["predicates are well-typed (boolean-or-NULL valued): the generator is typed; the theorems state this hypothesis explicitly (tv (p r) = true)"],
